@@ -178,7 +178,7 @@ pub fn run(args: &Args) -> i32 {
                     Ok(Some(d)) => ds = Some(d),
                     Ok(None) => {}
                     Err(e) => {
-                        report.harness_error(&format!("case {case}: write: {e}"));
+                        op_failed(&report, &format!("case {case}: write: {e}"));
                         return;
                     }
                 }
@@ -229,7 +229,7 @@ pub fn run(args: &Args) -> i32 {
                                 let list = victims.iter().map(|v| v.to_string()).collect::<Vec<_>>().join(",");
                                 let del = format!("id IN ({list})");
                                 if let Err(e) = guarded_op("delete", ds.delete(&del)).await {
-                                    report.harness_error(&format!("case {case}: {e}"));
+                                    op_failed(&report, &format!("case {case}: {e}"));
                                     return;
                                 }
                                 for v in victims {
@@ -244,7 +244,7 @@ pub fn run(args: &Args) -> i32 {
                             let b = make_batch(&schema, dim, &rows);
                             let p = WriteParams { mode: WriteMode::Append, data_storage_version: Some(version), ..Default::default() };
                             if let Err(e) = guarded_op("append", ds.append(reader_of(vec![b]), Some(p))).await {
-                                report.harness_error(&format!("case {case}: {e}"));
+                                op_failed(&report, &format!("case {case}: {e}"));
                                 return;
                             }
                             for (i, r) in rows {
@@ -255,7 +255,7 @@ pub fn run(args: &Args) -> i32 {
                         2 if mode != "flat" => {
                             let o = if rng.bool() { OptimizeOptions::append() } else { OptimizeOptions::merge(10) };
                             if let Err(e) = guarded_op("optimize_indices", ds.optimize_indices(&o)).await {
-                                report.harness_error(&format!("case {case}: {e}; table {table_desc}; history {history:?}"));
+                                op_failed(&report, &format!("case {case}: {e}; table {table_desc}; history {history:?}"));
                                 return;
                             }
                             indexed_ids = model.keys().copied().collect();
@@ -266,7 +266,7 @@ pub fn run(args: &Args) -> i32 {
                             match guarded(compact_files(&mut ds, opts, None)).await {
                                 Ok(m) => history.push(format!("compact(-{}+{})", m.fragments_removed, m.fragments_added)),
                                 Err(e) => {
-                                    report.harness_error(&format!("case {case}: compact: {e:?}"));
+                                    op_failed(&report, &format!("case {case}: compact: {e:?}"));
                                     return;
                                 }
                             }
